@@ -107,6 +107,16 @@ def check_propagate(ctx, R, modules=ANCHOR_MODULES_C03, note_modules=('streamz.r
                         ok = any(e.kind == 'COND' and e.b is False and e.a == 'self.loop' for e in seg)
                     if not ok and is_failure(seg, status) and not any(e.kind == 'HANDLED' for e in seg):
                         ok = True       # an exception is travelling to the caller instead of a result
+                    if not ok:
+                        # the call / await the result was handed to (gather(*result), the await itself) raised: the result
+                        # was not dropped by this function, whatever a handler does afterwards
+                        for e in seg:
+                            if e.kind == 'EXC' and e.x and e.x.get('source') is not None:
+                                s_ev = e.x['source']
+                                if s_ev.kind in ('CALL', 'SUS') and s_ev.b and not isinstance(s_ev.b, (bool, str)) and tag in s_ev.b:
+                                    ok = True
+                            if e.kind in ('ITER',):
+                                break
                     if not ok and (cname, fn.name) in DROPPED_EMIT_OK:
                         R.table('DROPPED_EMIT_OK', {'%s.%s' % k: v for k, v in DROPPED_EMIT_OK.items()})
                         ok = True
